@@ -66,6 +66,8 @@ def check_term(ctx, tag, term, want, loc, want_unit=None):
     if ty == want:
         ctx.ok("R09.2", f"{tag}[frame]", f"frame type {ty}: " + ("unchanged under joint rotation" if want == INV
                else "shifts by the rotation angle") + f" ({fa.pairs_checked} covariant pairs matched)", loc)
+    elif ty[0] == "unknown":
+        ctx.unsure("R09.2", f"{tag}[frame]", f"frame type not derivable: {ty[1]}", loc, derived=T.show(term, 300), required=str(want))
     elif ty[0] == "mixed":
         if not fa.problems:
             ctx.bad("R09.2", f"{tag}[frame]", f"not covariant: {ty[1]}", loc, derived=T.show(term, 300), required=str(want))
